@@ -40,7 +40,9 @@ def near_tie(x, v):
     return False
 
 
-COMBOS = [("lower", True), ("lower", False), ("higher", True), ("higher", False), ("closest", True)]
+# ('closest' has no "not valid" answer — a query outside the range yields the first / last index — so the dispatcher's fill flag
+#  means nothing for it: asked with the flag off as well)
+COMBOS = [("lower", True), ("lower", False), ("higher", True), ("higher", False), ("closest", True), ("closest", False)]
 
 
 class SearchUnit(Unit):
@@ -50,10 +52,10 @@ class SearchUnit(Unit):
 Definition zl_match (m : res (list Z)) (o : obs (list Z)) : bool := res_match Z_list_eqb m o.
 Definition chk_search (x l : list Qc) (r : list (obs (list Z))) : bool :=
   match r with
-  | [r1; r2; r3; r4; r5] =>
+  | [r1; r2; r3; r4; r5; r6] =>
       zl_match (find_indices x l Lower true) r1 && zl_match (find_indices x l Lower false) r2 &&
       zl_match (find_indices x l Higher true) r3 && zl_match (find_indices x l Higher false) r4 &&
-      zl_match (find_indices x l Closest true) r5
+      zl_match (find_indices x l Closest true) r5 && zl_match (find_indices x l Closest false) r6
   | _ => false
   end.
 """
